@@ -5,8 +5,10 @@ import (
 	"errors"
 	"fmt"
 	"reflect"
+	"sync/atomic"
 	"time"
 
+	"github.com/samsarahq/thunder/batch"
 	"github.com/samsarahq/thunder/graphql"
 	"github.com/samsarahq/thunder/graphql/schemabuilder"
 	"verifharness/pkg/vh"
@@ -71,6 +73,18 @@ type GenSchema struct {
 	ArgSamples map[string][]string
 	Shapes     map[string]int // histogram of field shapes
 	rng        *vh.Rng
+	// NonNullNil is set (at run time) when a resolver registered with schemabuilder.NonNullable handed back a
+	// nil or left a source out: the builder must then fail the request (function.go / batch.go), which the
+	// oracle accepts as the one legitimate execution error.
+	NonNullNil int32
+}
+
+// PRow is a keyed static struct for paginated fields.
+type PRow struct {
+	Id    int64
+	Label string
+	Score float64
+	Note  *string
 }
 
 func (g *GenSchema) leafType(r *vh.Rng) reflect.Type {
@@ -207,6 +221,7 @@ func NewGenSchema(r *vh.Rng) *GenSchema {
 	}
 	s.Object("MA", MA{})
 	s.Object("MB", MB{})
+	s.Object("PRow", PRow{}).Key("id")
 
 	// links
 	for i, t := range g.ObjTypes {
@@ -216,7 +231,15 @@ func NewGenSchema(r *vh.Rng) *GenSchema {
 			g.addFunc(r, objs[i], g.ObjNames[i], name, t, true)
 		}
 	}
+	for i, t := range g.ObjTypes {
+		if r.Chance(25) {
+			g.addPaginated(r, objs[i], g.ObjNames[i], "page", t, true)
+		}
+	}
 	q := s.Query()
+	if r.Chance(50) {
+		g.addPaginated(r, q, "Query", "rootPage", nil, false)
+	}
 	for i := range g.ObjTypes {
 		g.addFuncTo(r, q, "Query", fmt.Sprintf("get%d", i), nil, false, g.ObjTypes[i])
 	}
@@ -332,24 +355,185 @@ func (g *GenSchema) addFuncTo(r *vh.Rng, o *schemabuilder.Object, owner, name st
 		out = append(out, errType)
 		form += "err"
 	}
-	ft := reflect.FuncOf(in, out, false)
-	seed := r.U64()
-	fn := reflect.MakeFunc(ft, func(args []reflect.Value) []reflect.Value {
-		rr := vh.NewRng(seed)
-		res := []reflect.Value{g.value(rr, ret)}
-		if len(out) == 2 {
-			res = append(res, reflect.Zero(errType))
-		}
-		return res
-	})
 	var opts []schemabuilder.FieldFuncOption
 	if r.Chance(15) {
 		opts = append(opts, schemabuilder.Expensive)
 		form += "+expensive"
 	}
+	nonNullable := ret.Kind() == reflect.Ptr && r.Chance(25)
+	if nonNullable {
+		opts = append(opts, schemabuilder.NonNullable)
+		form += "+nonnullable"
+	}
+	seed := r.U64()
+	if hasSrc && r.Chance(30) {
+		g.addBatch(r, o, owner, name, src, ret, in, out, opts, nonNullable, seed, form)
+		return
+	}
+	ft := reflect.FuncOf(in, out, false)
+	fn := reflect.MakeFunc(ft, func(args []reflect.Value) []reflect.Value {
+		rr := vh.NewRng(seed)
+		res := []reflect.Value{g.nnValue(rr, ret, nonNullable)}
+		if len(out) == 2 {
+			res = append(res, reflect.Zero(errType))
+		}
+		return res
+	})
 	o.FieldFunc(name, fn.Interface(), opts...)
 	g.Shapes["func-ret:"+shapeOf(ret)]++
 	g.Shapes["func-form:"+form]++
+}
+
+// nnValue is value, except that a result promised non-null is nil only rarely (the request must then fail).
+func (g *GenSchema) nnValue(r *vh.Rng, t reflect.Type, nonNullable bool) reflect.Value {
+	if !nonNullable {
+		return g.value(r, t)
+	}
+	if r.Chance(12) {
+		atomic.StoreInt32(&g.NonNullNil, 1)
+		return reflect.Zero(t)
+	}
+	p := reflect.New(t.Elem())
+	p.Elem().Set(g.value(r, t.Elem()))
+	return p
+}
+
+var batchIndexType = reflect.TypeOf(batch.Index{})
+
+// addBatch registers the field as a BatchFieldFunc (map[batch.Index]source in, map[batch.Index]result out),
+// optionally with a fallback FieldFunc of the same signature shape and a flag that picks one of the two.
+func (g *GenSchema) addBatch(r *vh.Rng, o *schemabuilder.Object, owner, name string, src, ret reflect.Type,
+	in, out []reflect.Type, opts []schemabuilder.FieldFuncOption, nonNullable bool, seed uint64, form string) {
+	// the source parameter of the plain form becomes the batch map
+	bin := make([]reflect.Type, len(in))
+	srcAt := -1
+	for i, t := range in {
+		bin[i] = t
+		if t == src || t == reflect.PtrTo(src) {
+			srcAt = i
+			bin[i] = reflect.MapOf(batchIndexType, t)
+		}
+	}
+	if srcAt < 0 {
+		return
+	}
+	bout := append([]reflect.Type{reflect.MapOf(batchIndexType, ret)}, out[1:]...)
+	bfn := reflect.MakeFunc(reflect.FuncOf(bin, bout, false), func(args []reflect.Value) []reflect.Value {
+		rr := vh.NewRng(seed)
+		m := reflect.MakeMap(bout[0])
+		// deterministic order over the sources
+		keys := args[srcAt].MapKeys()
+		for i := 1; i < len(keys); i++ {
+			for j := i; j > 0 && keys[j].Field(0).Int() < keys[j-1].Field(0).Int(); j-- {
+				keys[j], keys[j-1] = keys[j-1], keys[j]
+			}
+		}
+		for _, k := range keys {
+			if rr.Chance(4) { // an entry left out
+				if nonNullable {
+					atomic.StoreInt32(&g.NonNullNil, 1)
+				}
+				continue
+			}
+			m.SetMapIndex(k, g.nnValue(rr, ret, nonNullable))
+		}
+		res := []reflect.Value{m}
+		if len(bout) == 2 {
+			res = append(res, reflect.Zero(errType))
+		}
+		return res
+	})
+	form = "batch:" + form
+	// (the builder wants the same graphql type from both; a batch func drops NonNull from non-list results)
+	fallbackOK := ret.Kind() == reflect.Ptr || (ret.Kind() == reflect.Slice && ret != reflect.TypeOf([]byte{}))
+	if fallbackOK && r.Chance(45) {
+		fb := reflect.MakeFunc(reflect.FuncOf(in, out, false), func(args []reflect.Value) []reflect.Value {
+			rr := vh.NewRng(seed)
+			res := []reflect.Value{g.nnValue(rr, ret, nonNullable)}
+			if len(out) == 2 {
+				res = append(res, reflect.Zero(errType))
+			}
+			return res
+		})
+		useBatch := r.Bool()
+		form += fmt.Sprintf("+fallback(batch=%v)", useBatch)
+		o.BatchFieldFuncWithFallback(name, bfn.Interface(), fb.Interface(), func(context.Context) bool { return useBatch }, opts...)
+	} else {
+		o.BatchFieldFunc(name, bfn.Interface(), opts...)
+	}
+	g.Shapes["func-ret:"+shapeOf(ret)]++
+	g.Shapes["func-form:"+form]++
+}
+
+// addPaginated registers a Paginated FieldFunc returning a slice of a keyed struct, with filter and sort fields.
+func (g *GenSchema) addPaginated(r *vh.Rng, o *schemabuilder.Object, owner, name string, src reflect.Type, hasSrc bool) {
+	row := reflect.TypeOf(PRow{})
+	var in []reflect.Type
+	if r.Chance(40) {
+		in = append(in, ctxType)
+	}
+	if hasSrc {
+		in = append(in, reflect.PtrTo(src))
+	}
+	ret := reflect.SliceOf(row)
+	if r.Bool() {
+		ret = reflect.SliceOf(reflect.PtrTo(row))
+	}
+	seed := r.U64()
+	fn := reflect.MakeFunc(reflect.FuncOf(in, []reflect.Type{ret}, false), func(args []reflect.Value) []reflect.Value {
+		rr := vh.NewRng(seed)
+		n := rr.Intn(5)
+		s := reflect.MakeSlice(ret, n, n)
+		for i := 0; i < n; i++ {
+			v := g.value(rr, row)
+			v.FieldByName("Id").SetInt(int64(i + 1)) // unique keys
+			if ret.Elem().Kind() == reflect.Ptr {
+				p := reflect.New(row)
+				p.Elem().Set(v)
+				v = p
+			}
+			s.Index(i).Set(v)
+		}
+		return []reflect.Value{s}
+	})
+	opts := []schemabuilder.FieldFuncOption{schemabuilder.Paginated}
+	samples := []string{"(first: 2)", "(last: 1)", "(first: 10)"}
+	elem := ret.Elem()
+	label := func(v reflect.Value) string {
+		for v.Kind() == reflect.Ptr {
+			v = v.Elem()
+		}
+		return v.FieldByName("Label").String()
+	}
+	score := func(v reflect.Value) float64 {
+		for v.Kind() == reflect.Ptr {
+			v = v.Elem()
+		}
+		return v.FieldByName("Score").Float()
+	}
+	if r.Chance(60) {
+		f := reflect.MakeFunc(reflect.FuncOf([]reflect.Type{elem}, []reflect.Type{reflect.TypeOf("")}, false),
+			func(a []reflect.Value) []reflect.Value { return []reflect.Value{reflect.ValueOf(label(a[0]))} })
+		var fo []schemabuilder.FieldFuncOption
+		if r.Chance(30) {
+			fo = append(fo, schemabuilder.Expensive)
+		}
+		opts = append(opts, schemabuilder.FilterField("label", f.Interface(), fo...))
+		samples = append(samples, `(filterText: "s")`, `(filterText: "two", filterTextFields: ["label"], first: 3)`)
+	}
+	if r.Chance(60) {
+		f := reflect.MakeFunc(reflect.FuncOf([]reflect.Type{elem}, []reflect.Type{reflect.TypeOf(float64(0))}, false),
+			func(a []reflect.Value) []reflect.Value { return []reflect.Value{reflect.ValueOf(score(a[0]))} })
+		var fo []schemabuilder.FieldFuncOption
+		if r.Chance(30) {
+			fo = append(fo, schemabuilder.Expensive)
+		}
+		opts = append(opts, schemabuilder.SortField("score", f.Interface(), fo...))
+		samples = append(samples, `(sortBy: "score")`, `(sortBy: "score", sortOrder: desc, first: 2)`)
+	}
+	o.FieldFunc(name, fn.Interface(), opts...)
+	g.ArgSamples[owner+"."+name] = samples
+	g.Shapes["func-form:paginated"]++
 }
 
 // Build builds the schema (recovering the builder's panics for shapes it rejects).
